@@ -21,7 +21,7 @@ CLenOf(n) == 16 + 128 * n + 16 + 312 + 72              \* unsigned or P-256 sign
 Sizes == IF Full THEN {512, 768, 1536} ELSE {512, 768}
 Modes == {"auto", "same", "later"}
 Opt == [size : Sizes, mode : Modes]
-Structs == { <<1>>, <<2>>, <<1, 1>>, <<1, 2>>, <<2, 1>>, <<2, 2>> }
+Structs == IF Full THEN { <<1>>, <<2>>, <<1, 1>>, <<1, 2>>, <<2, 1>>, <<2, 2>> } ELSE { <<1>>, <<2>>, <<1, 2>>, <<2, 1>> }
 (* a case: structure, two options used alternately by the images, gap behind the first image,           *)
 (* collide (the last image of container 1 gets an explicit offset that collides)                         *)
 Cases ==
